@@ -199,6 +199,16 @@ func main() {
 		}
 		t.Close()
 		fmt.Printf("events=%d\n", t.N)
+	case "xdr":
+		t, err := drv.NewTrace(*out)
+		if err != nil {
+			panic(err)
+		}
+		if err := drv.RunXdr(*specFile, t); err != nil {
+			panic(err)
+		}
+		t.Close()
+		fmt.Printf("events=%d\n", t.N)
 	case "probes":
 		t, err := drv.NewTrace(*out)
 		if err != nil {
